@@ -18,6 +18,14 @@ from exabgp.configuration.configuration import Configuration  # noqa: E402
 
 import exabgp  # noqa: E402
 
+# what application/server.py does at start-up and a library import does not: the daemon runs with the attribute cache
+# switched on (exabgp.cache.attributes defaults to true), so the checks do too
+from exabgp.bgp.message.update.attribute.attribute import Attribute as _Attribute  # noqa: E402
+from exabgp.environment import getenv as _getenv  # noqa: E402
+
+if _getenv().cache.attributes:
+    _Attribute.caching = _getenv().cache.attributes
+
 assert exabgp.__file__.startswith(REPO_SRC + '/'), exabgp.__file__
 
 
